@@ -1384,8 +1384,11 @@ class Controller:
                         TransitionComponentToFinalState(comp,
                                                         experiment.model.codes.exitReasons['Success'],
                                                         returncode=0)
-                    elif restartCode == experiment.model.codes.restartCodes["RestartCouldNotInitiate"]:
+                    elif restartCode in [experiment.model.codes.restartCodes["RestartCouldNotInitiate"],
+                                         experiment.model.codes.restartCodes["RestartMaxAttemptsExceeded"]]:
                         #This is either because the hook failed to prepare restart OR it determined it wasn't possible
+                        #OR the component does not have any restarts left (e.g. maxRestarts is 0): a refused
+                        #restart must give the component its final state, nothing else ever will
                         #In this case we class it as KnownIssue
                         #This allows the components "shutdownOn" spec to be used in a logical fashion
                         #i.e. if a component specifies to shutdownOn KnownIssue, meaning "when the failure reason has
